@@ -131,6 +131,28 @@ func vfGuardAPI(rec *evid.Rec, sig, what string, f func()) bool {
 //go:noinline
 func vfGuardedAPICall(f func()) { f() }
 
+// vfUpdatesWithoutSquash performs the runtime updates a program makes when it only wants to change
+// something else: option literals that do not name Squash at all. The squash mode is fixed at
+// construction ("cannot change Squash mode at runtime"); whether the server accepts or refuses these
+// calls, the mode in force afterwards must be the configured one. Errors are returned for the record.
+func vfUpdatesWithoutSquash(n *AbsfsNFS) []string {
+	var out []string
+	note := func(what string, err error) {
+		if err != nil {
+			out = append(out, what+": refused")
+		} else {
+			out = append(out, what+": accepted")
+		}
+	}
+	note("UpdatePolicyOptions(PolicyOptions{MaxFileSize})", n.UpdatePolicyOptions(PolicyOptions{MaxFileSize: 1 << 40}))
+	note("UpdateExportOptions(ExportOptions{TransferSize})", n.UpdateExportOptions(ExportOptions{TransferSize: 65536}))
+	o := n.GetExportOptions()
+	o.Squash = ""
+	o.MaxFileSize = 1 << 41
+	note("UpdateExportOptions(GetExportOptions() with Squash cleared)", n.UpdateExportOptions(o))
+	return out
+}
+
 func vfSetMaxHandles(n *AbsfsNFS, m int) {
 	n.fileMap.Lock()
 	n.fileMap.maxHandles = m
